@@ -48,6 +48,11 @@ ssize_t RawStreamProto::onRecvData(const void *data_ptr, size_t data_size)
 
     const char *str_ptr = static_cast<const char*>(data_ptr);
     auto str_len = util::json::FindEndPos(str_ptr, data_size);
+    if (str_len < 0) {
+        LogNotice("unbalanced bracket");
+        return -2;
+    }
+
     if (str_len > 0) {
         std::string json_text(str_ptr, str_len);
 
